@@ -35,13 +35,16 @@ Record page := mkpage {
 Inductive task :=
 | TLoadUp (pid : nat) | TLoadDown (pid : nat) | TOpen (r : opened) | TFeed (c : C) | THook (link : text).
 
+(* what a frame was computed from: everything view reads (pages, history, mode, buffer, width, height) *)
+Definition shown := (list (nat * page) * hist nat * mode * text * Z * Z)%type.
+
 Record ui := mkui {
   u_pages : list (nat * page);      (* page store, newest first *)
   u_hist : hist nat;
   u_mode : mode; u_buffer : text;
   u_width : Z; u_height : Z;
   u_tasks : list task;              (* spawned goroutines that have not reached their locked tail *)
-  u_frames : nat                    (* number of frames emitted so far *)
+  u_frames : list shown             (* GHOST: the frames emitted so far, newest first, each as the state it was computed from *)
 }.
 
 Fixpoint page_find (ps : list (nat * page)) (k : nat) : option page :=
@@ -58,7 +61,8 @@ Definition cur_item (s : ui) : option I :=
 Definition set_mode (s : ui) (m : mode) (b : text) : ui :=
   mkui (u_pages s) (u_hist s) m b (u_width s) (u_height s) (u_tasks s) (u_frames s).
 Definition frame (s : ui) : ui :=
-  mkui (u_pages s) (u_hist s) (u_mode s) (u_buffer s) (u_width s) (u_height s) (u_tasks s) (S (u_frames s)).
+  mkui (u_pages s) (u_hist s) (u_mode s) (u_buffer s) (u_width s) (u_height s) (u_tasks s)
+       ((u_pages s, u_hist s, u_mode s, u_buffer s, u_width s, u_height s) :: u_frames s).
 Definition spawn (s : ui) (t : task) : ui :=
   mkui (u_pages s) (u_hist s) (u_mode s) (u_buffer s) (u_width s) (u_height s) (u_tasks s ++ [t]) (u_frames s).
 Definition with_pages (s : ui) (ps : list (nat * page)) : ui :=
@@ -356,7 +360,16 @@ Definition resize (s : ui) (w h : Z) : ui :=
   if Z.eqb (u_width s) w && Z.eqb (u_height s) h then s
   else frame (mkui (u_pages s) (u_hist s) (u_mode s) (u_buffer s) w h (u_tasks s) (u_frames s)).
 
-Definition ui_init (w h : Z) : ui := mkui [] h_init MLoading [] w h [] 0.
+Definition ui_init (w h : Z) : ui := mkui [] h_init MLoading [] w h [] [].
+
+(* the state the frame now on the screen was computed from *)
+Definition last_shown (s : ui) : option ui :=
+  match u_frames s with
+  | (ps, h, m, b, w, hh) :: _ => Some (mkui ps h m b w hh [] [])
+  | [] => None
+  end.
+Definition last_frame (s : ui) : res text :=
+  match last_shown s with Some s' => view s' | None => Ok [] end.
 
 (* ---- helpers for the correspondence harness (not used by the theorems) ---- *)
 Definition is_load (t : task) : bool := match t with TLoadUp _ | TLoadDown _ => true | _ => false end.
@@ -395,5 +408,5 @@ Definition snapshot (s : ui) : Z * text * option nat * option I * (Z * Z) * (boo
   (mode_code (u_mode s), u_buffer s, cur_pid s, cur_item s,
    match p with Some p => (extent 2000 (pg_feed p) (-1) 0, extent 2000 (pg_feed p) 1 0) | None => (0, 0) end,
    match p with Some p => (pg_loading_up p, pg_loading_down p) | None => (false, false) end,
-   u_frames s, u_height s).
+   length (u_frames s), u_height s).
 End Ui.
